@@ -17,6 +17,8 @@ from harness.tlc import make_cfg, run_tlc
 # constructor arguments that share a name with a property but are documented as something else
 BY_DESIGN = {
     ("VarSet", "display"): "display is a flag: False writes text:display='none', True shows the value",
+    ("Style", "font_family_generic"): "documented as a 'font-face' family argument: ignored by the other families",
+    ("Style", "font_pitch"): "documented as a 'font-face' family argument: ignored by the other families",
 }
 # attributes with a value fixed by ODF that the wrapper class re-asserts whenever it wraps an element
 FIXED_VALUE = {("MetaAutoReload", "actuate"), ("MetaAutoReload", "show"), ("MetaAutoReload", "type"), ("MetaTemplate", "type"), ("MetaTemplate", "actuate"),
